@@ -444,3 +444,20 @@ Section CasProofs.
     apply H; [apply inv_init|exact H0].
   Qed.
 End CasProofs.
+
+Arguments cas_linearizable {V Op Out} decide extra_gets max_retries v0 now0 progs sched.
+Arguments cas_sequential {V Op Out} decide extra_gets max_retries v0 now0 progs sched.
+Arguments cas_invariant {V Op Out} decide extra_gets max_retries v0 now0 progs I sched.
+Arguments cas_create_once {V Op Out} decide extra_gets max_retries v0 now0 progs sched.
+Arguments cas_failures_write_nothing {V Op Out} decide extra_gets max_retries v0 now0 progs sched c.
+Arguments cas_times_ordered {V Op Out} decide extra_gets max_retries v0 now0 progs sched.
+Arguments run_invariant {V Op Out} decide extra_gets max_retries v0 now0 progs P.
+Arguments chain_seq_exec {V Op Out} decide log prev.
+Arguments chain_invariant {V Op Out} decide I.
+Arguments chain_prev_some {V Op Out} decide log prev.
+Arguments Inv {V Op Out} decide v0 now0 progs s.
+Arguments cl_inv {V Op Out} decide v0 now0 progs cur fresh now log c cl.
+Arguments pc_ok {V Op Out} decide v0 now0 cur fresh now log p.
+Arguments inv_step {V Op Out} decide extra_gets max_retries v0 now0 progs s l.
+Arguments inv_run {V Op Out} decide extra_gets max_retries v0 now0 progs sched s.
+Arguments inv_init {V Op Out} decide v0 now0 progs.
